@@ -2165,6 +2165,8 @@ def run(chk):
     chk.partial += ["the ownership theorems are about the step model; CPython/numpy aliasing itself is observed, not proved"]
     rng = chk.rng
     drv = core.Driver()
+    from .c10_dbcopy import run_dbcopy
+    run_dbcopy(chk)             # copies / updates of several series selected by overlapping patterns that cover the whole database
     combos = list(itertools.product([False, True], ["none", "step", "array"], [False, True], [None, "lp", "hp", "bp", "bs"], [False, True]))
     lines, meta = [], []
     for uniform in (True, False):
@@ -2311,6 +2313,9 @@ def run(chk):
 def replay(rp):
     import random
     inp = rp["input"]
+    if inp.get("kind") == "dbcopy":
+        from .c10_dbcopy import replay_dbcopy
+        return replay_dbcopy(inp)
     if inp.get("kind") in ("copy", "db", "query", "gui", "dbq", "shared"):
         F = check_case(inp)
         for oracle, expected, observed in F:
